@@ -20,6 +20,8 @@ def tasks(tier, seed):
 def extra(led, tier, seed):
     from contracts import predict_glue
     led.extend(predict_glue.obligations())
+    from contracts import infer_local
+    led.extend(infer_local.native_locality(seed, tier))
     led.assume("A1", "A2", "A3", "A4", "A8",
                "A5: softmax is row-wise (contract stub); check_array returns the validated array; np.argmax(axis=1) is row-wise",
                "A5: sklearn pairwise_kernels(X, Y)[i] depends only on X[i] and Y; a callable base_kernel is assumed row-local (user code)",
